@@ -41,7 +41,7 @@ def run_tlc(module, cfg, rundir, on_edge=None, workers=None, timeout=1800, env=N
     m = re.search(r"-Xss(\d+[kmgKMG])", (env or {}).get("JAVA_TOOL_OPTIONS", "") + " " + os.environ.get("JAVA_TOOL_OPTIONS", ""))
     if m:
         xss = m.group(1)
-    cmd = ["java", "-Xss" + xss, "-XX:+UseParallelGC", "-Xmx" + heap]
+    cmd = ["java", "-Xss" + xss, "-XX:+UseParallelGC", "-Xmx" + heap, "-Djava.io.tmpdir=" + md]   # TLC's scratch dirs: not in /tmp
     if depth_first:
         cmd.append("-Dtlc2.tool.queue.IStateQueue=StateDeque")
     cmd += ["-cp", "/opt/veriftools/tla/tla2tools.jar:/opt/veriftools/tla/CommunityModules-deps.jar", "tlc2.TLC"]
